@@ -101,6 +101,12 @@ HISTORY = {
     "C15-12": "caught as built (partial string chunk written at the wrong offset), also by C14's read-back",
     "C19-11": "caught as built (trajectory_kind = Microcanonical does not survive the round trip)",
     "C19-12": "caught as built (seed above 2^53 rounded through f64)",
+    "C18-11": "caught as built (halving stack unwound one level only: the crate's own assert fires / steps missing)",
+    "C18-12": "caught as built (momentum not refreshed after a draw that diverged at its first step)",
+    "C03-11": "re-invention of the defect repaired by a495ad3 (the `at least 1` guard moved from the depth to the step count): caught as built",
+    "C03-12": "missed at first (C03 drove nuts::draw directly; NutsChain::draw, which installs the returned state, was only covered through C16's schema view): chain-level audit through the public API added (unconstrained_draw / gradient / logp of the returned position bit for bit, index 0 iff unmoved, under region faults of three kinds)",
+    "C07-11": "C07's own check stays silent (its statement does not say WHICH acceptance statistic drives the late phase; with either one its clauses hold); caught with a failing input by C09, whose late-statistic clause it breaks",
+    "C07-12": "caught as built (symmetric acceptance statistic NaN after a first-step divergence)",
 }
 
 
